@@ -74,6 +74,11 @@ let dispatch (fn : string) : jv -> jv = match fn with
   | "spnego_serve" -> serve_j
   | "http_do" -> http_do_j
   | "asrep_verify" -> asrep_verify_j
+  | "cc_unmarshal" -> cc_unmarshal_j
+  | "cc_getentry" -> cc_getentry_j
+  | "cc_contains" -> cc_contains_j
+  | "cc_getentries" -> cc_getentries_j
+  | "cc_client" -> cc_client_j
   | "der_encode" -> der_encode_j
   | "der_decode" -> der_decode_j
   | "der_len" -> der_len_j
